@@ -2647,20 +2647,15 @@ def _mod_json(I):
             except TypeError as ex:
                 I.raise_("TypeError", str(ex))
         # symbolic values: the JSON text is an injective function of the
-        # (key, value) sequence for int / bool / str values
-        parts = ["{"]
-        for i, (kk, v) in enumerate(items):
-            if i:
-                parts.append(", ")
-            parts.append(_json.dumps(kk) + ": ")
-            if isinstance(v, SInt):
-                parts.append(SStr(z3.IntToStr(v.term)) if False else I.int_to_sstr(v))
-            elif isinstance(v, (int, str, bool)) or v is None:
-                parts.append(_json.dumps(v))
-            else:
+        # (key, value) sequence for int / bool / str values.  It is represented
+        # by that sequence itself (a tuple), never by a z3 string: equal iff the
+        # texts would be equal.
+        parts = ["$json"]
+        for kk, v in items:
+            if not (isinstance(v, (SInt, int, str, bool)) or v is None):
                 raise Unsupported("json.dumps of symbolic non-int value")
-        parts.append("}")
-        return I.str_concat(parts)
+            parts.append(PList(I, [kk, v], frozen=True))
+        return PList(I, parts, frozen=True)
     return PModule("json", {"dumps": NativeFunc(dumps, "json.dumps")})
 
 
@@ -2674,6 +2669,8 @@ def _int_to_sstr(self, v):
     g = z3.Function("dec2int", z3.StringSort(), z3.IntSort())
     t = f(v.term)
     self.ctx.assume(g(t) == v.term)       # f is injective on the applications that occur
+    digits = z3.Union(z3.Re("0"), z3.Concat(z3.Option(z3.Re("-")), z3.Range("1", "9"), z3.Star(z3.Range("0", "9"))))
+    self.ctx.assume(z3.InRe(t, digits))   # and its values are decimal numerals
     return SStr(t)
 
 
